@@ -637,6 +637,78 @@ theorem resume_undo_cursor_on_hub_chain (s : FState) (P : List Id) (hI : Inv s P
   rw [hfp, hfilter]
   exact resume_run_on_hub_chain s P hI h seg hs hnum c' (by simp [isUndo, c']) el hel helid helnum hcl
 
+theorem undoWalk_junction_on_seg (s : FState) (seg : List Entry) (c : Cur) (fuel : Nat) (id : Id) (acc undos : List Entry)
+    (jid : Id) (h : undoWalk s seg c fuel id acc = some (undos, jid)) : blockIn jid seg = true := by
+  induction fuel generalizing id acc with
+  | zero => simp [undoWalk] at h
+  | succ n ih =>
+    unfold undoWalk at h
+    cases hf : s.db.find id with
+    | none => rw [hf] at h; cases h
+    | some e =>
+      rw [hf] at h
+      simp only at h
+      by_cases hb : blockIn e.blk.parent seg = true
+      · simp only [hb, if_true, Option.some.injEq, Prod.mk.injEq] at h
+        rw [← h.2]; exact hb
+      · simp only [hb, Bool.false_eq_true, if_false] at h
+        exact ih _ _ h
+
+/-- **Resuming from a cursor on a fork, state level**: when the hub serves a cursor whose block was forked out, the
+    burst first undoes the consumer's forked blocks, newest first, down to the junction on the hub's chain, and then
+    continues as for the New cursor on that junction: applied to the consumer that stood at the cursor — resting on the
+    cursor's LIB, holding the hub chain's blocks up to the junction and then the forked blocks the burst undoes — it
+    ends exactly on the hub's own consumer state `⟨LIB, P⟩`. -/
+theorem resume_fork_cursor_on_hub (s : FState) (P : List Id) (hI : Inv s P) (h : Blk) (first : Entry) (rest : List Entry)
+    (hs : headSegment s = some (h, first :: rest)) (hnum : ∀ e, s.db.find h.id = some e → e.blk.num = h.num)
+    (c : Cur) (hlib : ¬ c.lib.num < first.blk.num)
+    (hoff : (blockIn c.block.id (first :: rest) && blockIn c.lib.id (first :: rest)) = false)
+    (out : List Event) (hout : blocksFromCursor s 2 c = some out)
+    (el : Entry) (hel : el ∈ first :: rest) (helid : el.blk.id = c.lib.id) (helnum : el.blk.num = c.lib.num)
+    (hcl : c.lib.num ≤ s.db.libRef.num) :
+    ∃ (undos : List Entry) (j : Entry), undoWalk s (first :: rest) c (s.db.entries.length + 1) c.block.id [] = some (undos, j.blk.id) ∧
+      (⟨c.lib.id, ((first :: rest).filter (fun e => decide (c.lib.num < e.blk.num) && decide (e.blk.num ≤ j.blk.num))).map (·.blk.id) ++
+          (undos.map (·.blk.id)).reverse⟩ : CS).run out = some ⟨s.db.libRef.id, P⟩ := by
+  obtain ⟨undos, jid, j, back, hwalk, hj, hback, hshape⟩ := fork_cursor_shape s 1 c h first rest hs hlib hoff out hout
+  have hjid : j.blk.id = jid := find_id s.db jid j hj
+  -- the junction is on the hub's chain, stored as `j`
+  have hjseg : blockIn jid (first :: rest) = true := undoWalk_junction_on_seg s _ c _ _ _ _ _ hwalk
+  obtain ⟨K, PE, hseg, hP, hPE, hK, hlast, hstored⟩ := headSegment_shape s P hI h (first :: rest) hs hnum
+  obtain ⟨ej, hejm, hejid⟩ : ∃ ej ∈ first :: rest, ej.blk.id = jid := by
+    unfold blockIn at hjseg
+    obtain ⟨x, hx, hxe⟩ := List.any_eq_true.mp hjseg
+    exact ⟨x, hx, by simpa using hxe⟩
+  have hejj : ej = j := by
+    have := hstored ej hejm
+    rw [hejid, hj] at this
+    exact (Option.some.inj this).symm
+  subst hejj
+  let c' : Cur := ⟨.new, ⟨jid, ej.blk.num⟩, h.ref, c.lib⟩
+  obtain ⟨h1, h2⟩ := resume_new_cursor_on_hub_chain s P hI h (first :: rest) hs hnum c' (by simp [isUndo, c'])
+    el hel helid helnum ej hejm hejid hcl
+  refine ⟨undos, ej, by rw [hjid]; exact hwalk, ?_⟩
+  rw [hshape, run_append]
+  have hundo : (⟨c.lib.id, ((first :: rest).filter (fun e => decide (c.lib.num < e.blk.num) && decide (e.blk.num ≤ ej.blk.num))).map (·.blk.id) ++
+      (undos.map (·.blk.id)).reverse⟩ : CS).run (undos.map (fun e => wrap e .undo h.ref c.lib (some ej.blk.ref))) =
+      some ⟨c.lib.id, ((first :: rest).filter (fun e => decide (c.lib.num < e.blk.num) && decide (e.blk.num ≤ ej.blk.num))).map (·.blk.id)⟩ := by
+    unfold CS.run
+    have e1 : (undos.map (fun e => wrap e .undo h.ref c.lib (some ej.blk.ref))).map sbOf =
+        (undos.map (·.blk)).map (fun b => (Step.undo, b)) := by
+      simp [sbOf, wrap]
+    rw [e1]
+    have := runSB_undos c.lib.id
+      (((first :: rest).filter (fun e => decide (c.lib.num < e.blk.num) && decide (e.blk.num ≤ ej.blk.num))).map (·.blk.id))
+      (undos.map (·.blk))
+    simpa [List.map_map, Function.comp_def] using this
+  rw [hundo]
+  simp only [Option.bind_some]
+  have hb2 : back = fastPath s h (first :: rest) c' := by
+    have : blocksFromCursor s 1 c' = some back := hback
+    rw [h1] at this
+    exact (Option.some.inj this).symm
+  rw [hb2]
+  exact h2
+
 /-- **… equals never having disconnected**: the burst, followed by everything the hub delivers afterwards for any later
     history of blocks of one consistent block tree, is one sequence the consumer that stood at the cursor accepts; it
     ends on the hub's chain and LIB as if it had stayed subscribed -/
@@ -706,6 +778,37 @@ example : ∃ burst P, blocksFromCursor sK 1 cK = some burst ∧
 
 example : ((blocksFromCursor sK 1 cK).map (·.map (fun e => (e.step, e.blk.id)))) =
     some [(.irreversible, "a3"), (.new, "a4"), (.new, "a5")] := by decide
+/-! Non-vacuity of `resume_fork_cursor_on_hub`: the hub received a2, a3, b4, then a4, a5 (b4 forked out; LIB a2). A
+    consumer that disconnected at "New b4, LIB a2" — holding a3, b4 — reconnects: b4 is undone (junction a3), a4 and a5
+    are delivered, and it stands on ⟨a2, [a3, a4, a5]⟩, the hub's own consumer state. The hypotheses of the theorem hold
+    for this state and cursor (the invariant by the history theorem, the rest by kernel evaluation). -/
+private def hF : List Blk := [⟨"a2", "r", 2, 1⟩, ⟨"a3", "a2", 3, 1⟩, ⟨"b4", "a3", 4, 1⟩, ⟨"a4", "a3", 4, 2⟩, ⟨"a5", "a4", 5, 2⟩]
+private def sF : FState := (runHistory cfgK (Forkable.init cfgK) hF).1
+private def cF : Cur := ⟨.new, ⟨"b4", 4⟩, ⟨"b4", 4⟩, ⟨"a2", 2⟩⟩
+
+example : ∃ P, Inv sF P := by
+  have hU : UOK (ofList hF) := uokB_sound hF (by decide)
+  have hI0 := Props.C01.init_inv cfgK ⟨"r", 1⟩ (by decide) rfl
+  have hJ0 : Inv2 (ofList hF) ["r"] (Forkable.init cfgK).db := by
+    apply Props.C01.init_inv2 cfgK ⟨"r", 1⟩ rfl
+    · intro b hb hp
+      exact (by decide : ∀ x ∈ hF, x.parent = "r" → 1 < x.num) b (ofList_mem hF _ b hb).1 hp
+    · intro b hb hid
+      exact (by decide : ∀ x ∈ hF, x.id = "r" → x.num = 1) b (ofList_mem hF _ b hb).1 hid
+  obtain ⟨P, _, hI, _⟩ := Props.C01.history_invariants_consistent cfgK (by decide) (by decide) (by decide)
+    (ofList hF) hU hF ["r"] (Forkable.init cfgK) [] hI0 hJ0
+    (fun b hb => ofList_of_mem hF (by decide) b hb) (libHistB_sound cfgK hF _ (by decide)) (Or.inl rfl)
+  exact ⟨P, hI⟩
+
+example : headSegment sF = some (⟨"a5", "a4", 5, 2⟩,
+      ⟨⟨"a2", "r", 2, 1⟩, true⟩ :: [⟨⟨"a3", "a2", 3, 1⟩, true⟩, ⟨⟨"a4", "a3", 4, 2⟩, true⟩, ⟨⟨"a5", "a4", 5, 2⟩, true⟩]) ∧
+    (blockIn cF.block.id [⟨⟨"a2", "r", 2, 1⟩, true⟩, ⟨⟨"a3", "a2", 3, 1⟩, true⟩, ⟨⟨"a4", "a3", 4, 2⟩, true⟩, ⟨⟨"a5", "a4", 5, 2⟩, true⟩] &&
+      blockIn cF.lib.id [⟨⟨"a2", "r", 2, 1⟩, true⟩, ⟨⟨"a3", "a2", 3, 1⟩, true⟩, ⟨⟨"a4", "a3", 4, 2⟩, true⟩, ⟨⟨"a5", "a4", 5, 2⟩, true⟩]) = false ∧
+    (blocksFromCursor sF 2 cF).isSome = true ∧ cF.lib.num ≤ sF.db.libRef.num := by decide
+
+example : ((blocksFromCursor sF 2 cF).map (·.map (fun e => (e.step, e.blk.id)))) =
+      some [(.undo, "b4"), (.new, "a4"), (.new, "a5")] ∧
+    (blocksFromCursor sF 2 cF).bind (fun out => (⟨"a2", ["a3", "b4"]⟩ : CS).run out) = some ⟨"a2", ["a3", "a4", "a5"]⟩ := by decide
 end Example
 
 end BstreamVerif.Props.C05
